@@ -41,6 +41,8 @@ type Obligation struct {
 	extra   []string
 	Result  *SolveResult
 	linesOv []string
+	retInstr *ssa.Return
+	st      *State
 }
 
 type unsupported struct{ msg string }
